@@ -462,18 +462,33 @@ class GateGen:
         self.kinds.add('plain:' + ('T' if val else 'F'))
         return txt, None, val
 
-    def block(self, U, depth: int, path: T.List[T.List[str]]) -> None:
+    def block(self, U, depth: int, path: T.List[T.List[str]], in_loop: bool = False) -> None:
         rng = self.rng
         for _ in range(rng.randint(1, 3)):
-            if depth < 3 and rng.random() < 0.55:
-                self.ifstmt(U, depth, path)
+            k = rng.random()
+            if depth < 3 and k < 0.5:
+                self.ifstmt(U, depth, path, in_loop)
+            elif depth < 3 and k < 0.62:
+                n = rng.choice([1, 2])
+                self.lines.append('foreach it_%d : %s' % (depth, '[1]' if n == 1 else '[1, 2]'))
+                self.toks.append(f'L{n}')
+                self.block(U, depth + 1, path, True)
+                self.lines.append('endforeach')
+                self.toks.append('M')
+                self.kinds.add('loop')
+            elif k < 0.72 and (in_loop or rng.random() < 0.15):
+                # leave the block early: break / continue inside a foreach, subdir_done() anywhere
+                kind = rng.choice(['b', 'c', 'c', 'd'] if in_loop else ['d'])
+                self.lines.append({'b': 'break', 'c': 'continue', 'd': 'subdir_done()'}[kind])
+                self.toks.append('X' + kind)
+                self.kinds.add('exit:' + kind + (':gated' if path else ':plain'))
             else:
                 self.n += 1
                 self.paths[self.n] = list(path)
                 self.lines.append(f"message('P{self.n}')")
                 self.toks.append(f'P{self.n}')
 
-    def ifstmt(self, U, depth: int, path: T.List[T.List[str]]) -> None:
+    def ifstmt(self, U, depth: int, path: T.List[T.List[str]], in_loop: bool = False) -> None:
         rng = self.rng
         self.toks.append('I')
         nclauses = rng.choice([1, 1, 2, 2, 3])
@@ -482,45 +497,83 @@ class GateGen:
             self.lines.append(('if ' if i == 0 else 'elif ') + txt)
             self.clause_lines[len(self.lines)] = (checks, list(path))
             self.toks.append(f'C{int(val)}:' + (enc_list(checks) if checks else ''))
-            self.block(U, depth + 1, path + ([checks] if checks else []))
+            self.block(U, depth + 1, path + ([checks] if checks else []), in_loop)
         if rng.random() < 0.6:
             self.lines.append('else')
             self.toks.append('E')
-            self.block(U, depth + 1, path)
+            self.block(U, depth + 1, path, in_loop)
         self.lines.append('endif')
         self.toks.append('F')
 
 
-def gate_expected_sequence(toks: T.List[str]) -> T.List[int]:
-    """probe ids in execution order, from the truth values alone (reference evaluation of the skeleton)"""
-    out: T.List[int] = []
+def gate_expected_sequence(toks: T.List[str]) -> T.Tuple[T.List[int], str]:
+    """probe ids in execution order and the way the file is left ('' or 'done'), from the truth values and the
+    break/continue/subdir_done() statements alone (reference evaluation of the skeleton)"""
     pos = 0
 
-    def block(run: bool) -> None:
+    def skip_block() -> None:
+        block(False)
+
+    def block(run: bool) -> T.Tuple[T.List[int], str]:
+        """-> (probes, signal); parses one block; when `run` is False or after a signal the rest is only parsed"""
         nonlocal pos
+        out: T.List[int] = []
+        sig = ''
         while pos < len(toks):
             t = toks[pos]
+            live = run and not sig
             if t.startswith('P'):
                 pos += 1
-                if run:
+                if live:
                     out.append(int(t[1:]))
+            elif t.startswith('X'):
+                pos += 1
+                if live:
+                    sig = t[1]
+            elif t in ('L1', 'L2'):
+                pos += 1
+                start = pos
+                o1, s1 = block(live)
+                end = pos
+                if pos < len(toks) and toks[pos] == 'M':
+                    pos += 1
+                if live:
+                    out += o1
+                    if s1 == 'd':
+                        sig = 'd'
+                    elif s1 != 'b' and t == 'L2':
+                        save = pos
+                        pos = start
+                        o2, s2 = block(True)
+                        assert pos == end
+                        pos = save
+                        out += o2
+                        if s2 == 'd':
+                            sig = 'd'
             elif t == 'I':
                 pos += 1
                 taken = False
                 while pos < len(toks) and toks[pos].startswith('C'):
                     val = toks[pos][1] == '1'
                     pos += 1
-                    block(run and not taken and val)
+                    o, s_ = block(live and not taken and val)
+                    if live and not taken and val:
+                        out += o
+                        sig = s_
                     taken = taken or val
                 if pos < len(toks) and toks[pos] == 'E':
                     pos += 1
-                    block(run and not taken)
+                    o, s_ = block(live and not taken)
+                    if live and not taken:
+                        out += o
+                        sig = s_
                 if pos < len(toks) and toks[pos] == 'F':
                     pos += 1
             else:
-                return
-    block(True)
-    return out
+                break
+        return out, sig
+    out, sig = block(True)
+    return out, ('done' if sig == 'd' else '')
 
 
 def gate_stream(ctx: Ctx, U, add, small) -> None:
@@ -565,20 +618,27 @@ def gate_stream(ctx: Ctx, U, add, small) -> None:
             del log[:], warns[:]
             impl_i.reset()
             mesonlib.project_meson_versions[impl_i.interp.subproject] = U.version_check_to_range([pv])
+            left = ''
             try:
                 impl_i.interp.evaluate_codeblock(impl_i.parse(code))
-            except Exception as e:
-                ctx.disagreement({'kind': 'gate', 'input': [pv, code], 'impl': f'ERR:{type(e).__name__}', 'model': 'runs'})
-                continue
+            except BaseException as e:
+                if isinstance(e, (KeyboardInterrupt, SystemExit)):
+                    raise
+                if type(e).__name__ == 'SubdirDoneRequest':
+                    left = 'done'
+                else:
+                    ctx.disagreement({'kind': 'gate', 'input': [pv, code], 'impl': f'ERR:{type(e).__name__}', 'model': 'runs'})
+                    continue
             finally:
                 after = mesonlib.project_meson_versions.get(impl_i.interp.subproject)
             ctx.count()
             kinds |= g.kinds
             case = {'pv': pv, 'code': code}
             # --- oracle 1: the executed probes are the ones the truth values select, in order
-            want_seq = gate_expected_sequence(g.toks)
-            if [n for n, _ in log] != want_seq:
-                ctx.violation(f'gate-seq:{pv}:{code!r}', f'blocks executed {[n for n, _ in log]}, the conditions select {want_seq}', case)
+            want_seq, want_left = gate_expected_sequence(g.toks)
+            if [n for n, _ in log] != want_seq or left != want_left:
+                ctx.violation(f'gate-seq:{pv}:{code!r}', f'blocks executed {[n for n, _ in log]} (left: {left!r}), the conditions '
+                              f'and break/continue/subdir_done() select {want_seq} (left: {want_left!r})', case)
                 continue
             # --- oracle 2: membership in the range in force = outer constraint and the checks on the path
             bad = None
@@ -596,7 +656,8 @@ def gate_stream(ctx: Ctx, U, add, small) -> None:
                 if bad:
                     break
             if bad is None and (after is None or show_range(after) != show_range(U.version_check_to_range([pv]))):
-                bad = 'the range in force after the statements is not the project range any more'
+                bad = (f'the range in force after the statements ({after}) is not the project range {pv!r} any more '
+                       '(a narrowed range outlived its block)')
             # --- oracle 3: "always evaluates to" verdicts only at clauses that make a check, and only when true of every/no version
             seen_lines: T.Set[int] = set()
             for txt, ln in warns:
@@ -607,10 +668,7 @@ def gate_stream(ctx: Ctx, U, add, small) -> None:
                 if cl is None or cl[0] is None:
                     bad = f'line {ln}: "{txt}" reported at a clause whose condition makes no version check'
                     break
-                if ln in seen_lines:
-                    bad = f'line {ln}: verdict reported twice'
-                    break
-                seen_lines.add(ln)
+                seen_lines.add(ln)   # (a clause inside a foreach is evaluated once per iteration: repeats are fine)
                 checks, path = cl
                 members = [vs for vs in grid if U.version_compare(vs, pv) and all(U.version_compare(vs, c) for pl in path for c in pl)]
                 sat = [vs for vs in members if all(U.version_compare(vs, c) for c in checks)]
@@ -620,7 +678,7 @@ def gate_stream(ctx: Ctx, U, add, small) -> None:
                     bad = f'line {ln}: said always false, but {sat[:3]} are in range and satisfy {checks}'
             if bad:
                 ctx.violation(f'gate:{pv}:{code!r}', bad, case)
-            add('gate', [pv, code], f'gate {enc(pv)}|{prog}', '&'.join(f'{n}:{show_range(r)}' for n, r in log))
+            add('gate', [pv, code], f'gate {enc(pv)}|{prog}', '&'.join(f'{n}:{show_range(r)}' for n, r in log) + ('#done' if left else ''))
             if any(g.paths[n] for n, _ in log):
                 ctx.seen_nontrivial(('gate', code))
         for k in sorted(kinds):
